@@ -1486,6 +1486,39 @@ def result_sites(fn):
     return out
 
 
+
+def size_components_kept_in_double(ctx, tag):
+    """Shared by C08, C09 and C12 (thresholds given with suffixes act at exactly the configured value)."""
+    pp = ctx.fn1("Oomd::Util::parseSizeOrPercent")
+    # ... and a size given with suffixes is exact to the byte as far as a double can carry it (53 bits): each component parsed by
+    # std::stod / std::stold is kept in a double or wider until it is converted - a float keeps 24 bits, "64G 4K" would read as 64G
+    ps = ctx.fn1("Oomd::Util::parseSize")
+    ctx.use(ps)
+    n_fp = 0
+    for f_ in (ps, pp):
+        for i in f_.calls("stod", "stold", "stof", "strtod", "strtold", "strtof", "atof"):
+            n_fp += 1
+            nm_ = f_.nodes[i].get("cname") or ""
+            par = f_.parent.get(i)
+            hops = 0
+            while par is not None and f_.nodes[par]["k"] in ("cast", "paren", "implicit") and hops < 4:
+                par = f_.parent.get(par)
+                hops += 1
+            dest_tw = None
+            if par is not None:
+                pn = f_.nodes[par]
+                if pn["k"] == "bin" and pn.get("op") == "=":
+                    dest_tw = f_.nodes[f_.strip(pn["l"])].get("tw")
+                elif pn["k"] == "decl":
+                    dest_tw = next((v_.get("tw") for v_ in pn.get("vars", []) if v_.get("init") is not None and i in set(f_.walk(v_["init"]))), None)
+            ok_ = nm_ not in ("stof", "strtof") and dest_tw in (None, "f64", "f80", "f128")
+            ctx.check(ok_, "size-components-kept-in-double:%s@%d" % (short(f_), f_.nodes[i].get("line", 0)), "E-TYPE narrowing", f_.loc(i),
+                      "a parsed size component is held in a double or wider",
+                      "%s: the parsed component is narrowed to %s: it keeps 24 significant bits, so sizes that need more (64G 4K, 1234567891K) come out "
+                      "off by kilobytes and a usage exactly at the configured threshold is judged on the wrong side" % (f_.text(par)[:60] if par is not None else nm_, dest_tw or "float"))
+    ctx.counters[tag + "_size_fp_parses"] = n_fp
+
+
 def percent_threshold_exact(ctx, tag):
     """'N%' of a total, as every plugin computes it through Util::parseSizeOrPercent, is exact: the value written to *output goes through
     at most one truncating division, as the last step (total * pct / 100, never total / 100 * pct).  A threshold that comes out a few
@@ -1496,6 +1529,7 @@ def percent_threshold_exact(ctx, tag):
     outw = [i for i, n in enumerate(pp.nodes) if n["k"] == "bin" and n.get("op") == "=" and pp.pos_of(i) is not None and pp.text(n["l"]).replace(" ", "") in ("*output", "(*output)")]
     ctx.counters[tag + "_percent_output_writes"] = len(outw)
     ctx.floor(tag + "_percent_output_writes", 1, "assignments to *output in Util::parseSizeOrPercent")
+    size_components_kept_in_double(ctx, tag)
     for i in outw:
         e = exactness(pp, pp.nodes[i]["r"])
         ctx.check(e in ("INT", "QUOT"), "percent-threshold-exact@%d" % pp.nodes[i].get("line", 0), "E-TYPE exactness domain (INT/QUOT/INEXACT)", pp.loc(i),
@@ -1673,3 +1707,38 @@ def borrowed_fd_not_consumed(ctx):
 def plain_name(n):
     from ..program import plain
     return plain(n.get("callee", "") or "").split("::")[-1]
+
+
+def uuid_generator_keeps_state(ctx):
+    """Shared by C06 and C17: run / kill uuids are fresh per chain and per attempt.  Util::generateUuid draws from a random engine whose
+    state PERSISTS across calls (a static or thread_local engine seeded once), or - if the engine is built per call - it is seeded from
+    std::random_device on that call.  An engine rebuilt per call from a fixed seed mixed with a coarse clock returns the same id for
+    every call within one clock step (two chains fired on the same tick share a uuid)."""
+    P = ctx.prog
+    f = ctx.fn1("Oomd::Util::generateUuid")
+    ENGINE = re.compile(r"std::(mt19937(_64)?|mersenne_twister_engine|minstd_rand0?|linear_congruential_engine|default_random_engine|ranlux\w+|knuth_b)\b")
+    engines = []
+    for d in f.all("decl"):
+        for v in f.nodes[d].get("vars", []):
+            if ENGINE.search(v.get("type") or ""):
+                engines.append((d, v))
+    if not engines:
+        ctx.broken("uuid-generator-keeps-state", "anchor", f.loc(), "no random engine local found in Util::generateUuid")
+        return
+    X = Expander(P, f)
+    for d, v in engines:
+        persistent = bool(v.get("static")) or bool(v.get("tls"))
+        seeded_per_call = False
+        if not persistent and v.get("init") is not None and v.get("init", -1) >= 0:
+            t = X(v["init"])
+            # std::random_device{}() / rd() in the seed expression of THIS call (not via a static initialised once)
+            seeded_per_call = re.search(r"random_device\b[^;]*\)\(\)|random_device\(\)\.operator\(\)|\brd\(\)", t) is not None and "static" not in t
+            for x in f.walk(v["init"]):
+                xn = f.nodes[x]
+                if xn["k"] == "ref" and xn.get("dk") == "static_local":
+                    seeded_per_call = False
+        ctx.check(persistent or seeded_per_call, "uuid-generator-keeps-state", "storage_class", f.loc(d),
+                  "the random engine behind the uuids keeps its state across calls (or is re-seeded from the entropy source on every call)",
+                  "Util::generateUuid builds its engine '%s' on every call from %s: every call within one step of that seed returns the same id - two "
+                  "chains fired on the same tick (or a chain re-fired at once) share a run uuid, and kill attempts share their kill uuid"
+                  % (v["name"], (X(v["init"])[:80] if v.get("init") is not None and v.get("init", -1) >= 0 else "a default seed")))
